@@ -23,8 +23,13 @@ evaluated by a small symbolic interpreter of the checker (`Prov`): values are
 *sets of alternative terms*; a term is a record (dict built by display /
 keyed stores / `del`) or a canonical string.  Calls into the package are
 resolved and inlined when the callee is straight-line (assignments, returns,
-`try`, `if`); a callee with loops is a leaf term `module:function(arg terms)`
-and must not read stored constants itself (else exit 2).  `try` contributes
+`try`, `if`, and `for` loops / list and dict comprehensions over a sequence of
+known length -- a display, a list built by appends, enumerate / zip / constant
+range of such -- which are the sequence of their passes; lists and tuples are
+values, `Seq`); any other callee is a leaf term `module:function(arg terms)`
+and must not read stored constants itself (else exit 2).  Keys and callees are
+taken by value: a local bound to `'Cf_sc'` or to a package function is that
+key / that function.  `try` contributes
 the union of body and handlers, an `if` on a stored constant likewise, any
 other `if` a single `ite(test; a; b)` term (constant tests are folded).
 Nothing is matched by source form: renaming, hoisting, helpers, keyword
@@ -47,12 +52,23 @@ SLOTS = ('ff', 'fs')
 DEPENDS = {'Cf_b': ('Cf_sc',), 'xr': ('Cf_sc',), 'fs': ('xr', 'na')}
 MAX_ALT = 512
 MAX_STEPS = 40000
+MAX_UNROLL = 24
 STORED = 'STORED'
 _TOK = re.compile(r"STORED(?:\[(?:'[^']*'|-?\d+)\])+")
 
 
 class _Leaf(Exception):
     """The function cannot be inlined by the interpreter."""
+
+
+class _Bind(ast.stmt):
+    """Synthetic statement of an unrolled loop: bind the loop target to the
+    value of one pass."""
+    _fields = ()
+
+    def __init__(self, target, value):
+        ast.stmt.__init__(self)
+        self.target, self.value = target, value
 
 
 class Rec:
@@ -77,6 +93,25 @@ class Rec:
         return 'Rec(%s)' % ', '.join(repr(k) for k, _ in self.items)
 
 
+class Seq:
+    """Immutable sequence (list / tuple display, list built by appends):
+    position -> frozenset of values.  Renders as the display it stands for."""
+    __slots__ = ('elts', '_h')
+
+    def __init__(self, elts):
+        self.elts = tuple(frozenset(x) for x in elts)
+        self._h = hash(('Seq', self.elts))
+
+    def __hash__(self):
+        return self._h
+
+    def __eq__(self, o):
+        return isinstance(o, Seq) and self.elts == o.elts
+
+    def __repr__(self):
+        return 'Seq(%d)' % len(self.elts)
+
+
 def _cap(n, what):
     if n > MAX_ALT:
         raise AnalysisError('%s: more than %d alternative values for %s'
@@ -98,6 +133,9 @@ def render(vals):
             for combo in itertools.product(*alts):
                 out.add('{' + ', '.join('%r: %s' % (k, c) for k, c in
                                         zip(keys, combo)) + '}')
+        elif isinstance(v, Seq):
+            out |= _prod([render(x) for x in v.elts],
+                         lambda c_: '[' + ', '.join(c_) + ']')
         else:
             out.add(v)
     return sorted(out)
@@ -163,6 +201,9 @@ class Prov:
         if isinstance(e, ast.Subscript):
             base = self.expr(fi, e.value, env)
             k = const(e.slice, _NO)
+            if k is _NO and any(isinstance(b, (Rec, Seq)) for b in base):
+                # the key as a value (a local bound to a constant)
+                k = _term_const(self.expr(fi, e.slice, env))
             out = set()
             rest = []
             for b in base:
@@ -172,6 +213,9 @@ class Prov:
                         out |= d[k]
                     else:
                         out.add('MISSING[%r]' % (k,))
+                elif isinstance(b, Seq) and type(k) is int and \
+                        -len(b.elts) <= k < len(b.elts):
+                    out |= b.elts[k]
                 else:
                     rest.append(b)
             if rest:
@@ -182,6 +226,12 @@ class Prov:
             return frozenset(out)
         if isinstance(e, ast.BinOp):
             op = _BIN.get(type(e.op), type(e.op).__name__)
+            if isinstance(e.op, ast.Add):
+                lr = [self.expr(fi, e.left, env), self.expr(fi, e.right, env)]
+                if all(len(x) == 1 and isinstance(next(iter(x)), Seq)
+                       for x in lr):
+                    return frozenset([Seq(next(iter(lr[0])).elts
+                                          + next(iter(lr[1])).elts)])
             if isinstance(e.op, (ast.Add, ast.Mult)):
                 flat = []
 
@@ -242,6 +292,9 @@ class Prov:
                 '%s: %s' % (c_[i], c_[i + 1])
                 for i in range(0, len(c_), 2)) + '}')
         if isinstance(e, (ast.List, ast.Tuple)):
+            if not any(isinstance(x, ast.Starred) for x in e.elts):
+                return frozenset([Seq([self.expr(fi, x, env)
+                                       for x in e.elts])])
             parts = [render(self.expr(fi, x, env)) for x in e.elts]
             return _prod(parts, lambda c_: '[' + ', '.join(c_) + ']')
         if isinstance(e, ast.Starred):
@@ -249,6 +302,10 @@ class Prov:
                              render(self.expr(fi, e.value, env)))
         if isinstance(e, (ast.ListComp, ast.GeneratorExp, ast.SetComp,
                           ast.DictComp)):
+            if isinstance(e, (ast.ListComp, ast.DictComp)):
+                v = self._comp(fi, e, env)
+                if v is not None:
+                    return v
             env2 = dict(env)
             heads = []
             for i, g in enumerate(e.generators):
@@ -285,6 +342,98 @@ class Prov:
         ra, rb = render(a), render(b)
         return _prod([t, ra, rb],
                      lambda c_: 'ite(%s; %s; %s)' % (c_[0], c_[1], c_[2]))
+
+    # ---- bounded iteration -------------------------------------------------
+    def _builtin(self, fi, name, env):
+        return name not in env and name not in fi.mod.funcs and \
+            name not in fi.mod.globals and name not in fi.mod.imports
+
+    def _items(self, fi, it, env):
+        """The values successive iterations over `it` bind (each a set of
+        alternatives), when `it` is a sequence of known length: a display,
+        a list built by appends, `enumerate` / `zip` / `reversed` / `list` /
+        `tuple` of such, a constant `range`.  None otherwise."""
+        if isinstance(it, ast.Call) and isinstance(it.func, ast.Name) and \
+                self._builtin(fi, it.func.id, env) and not any(
+                    isinstance(a, ast.Starred) for a in it.args):
+            nm, n_a, kw = it.func.id, len(it.args), it.keywords
+            if nm == 'enumerate' and 1 <= n_a + len(kw) <= 2 and n_a >= 1 \
+                    and all(k.arg == 'start' for k in kw):
+                st = it.args[1] if n_a == 2 else (kw[0].value if kw else None)
+                k0 = 0 if st is None else _term_const(self.expr(fi, st, env))
+                xs = self._items(fi, it.args[0], env)
+                if xs is None or type(k0) is not int:
+                    return None
+                return [frozenset([Seq([frozenset([repr(k0 + i)]), x])])
+                        for i, x in enumerate(xs)]
+            if nm == 'zip' and n_a >= 1 and not kw:
+                cols = [self._items(fi, a, env) for a in it.args]
+                if any(c is None for c in cols) or \
+                        len({len(c) for c in cols}) != 1:
+                    return None
+                return [frozenset([Seq(row)]) for row in zip(*cols)]
+            if nm in ('list', 'tuple', 'reversed') and n_a == 1 and not kw:
+                xs = self._items(fi, it.args[0], env)
+                if xs is None:
+                    return None
+                return xs[::-1] if nm == 'reversed' else xs
+            if nm == 'range' and 1 <= n_a <= 3 and not kw:
+                ks = [_term_const(self.expr(fi, a, env)) for a in it.args]
+                if any(type(k) is not int for k in ks) or (
+                        n_a == 3 and ks[2] == 0):
+                    return None
+                r = range(*ks)
+                if len(r) > MAX_UNROLL:
+                    return None
+                return [frozenset([repr(i)]) for i in r]
+            return None
+        v = self.expr(fi, it, env)
+        if len(v) == 1 and isinstance(next(iter(v)), Seq) and \
+                len(next(iter(v)).elts) <= MAX_UNROLL:
+            return list(next(iter(v)).elts)
+        return None
+
+    def _comp(self, fi, e, env):
+        """[elt for ...] / {k: v for ...} over sequences of known length with
+        decidable filters: the list / record it builds.  None otherwise."""
+        rows = []
+
+        def gen(gi, env2):
+            if gi == len(e.generators):
+                rows.append(env2)
+                return len(rows) <= MAX_UNROLL
+            g = e.generators[gi]
+            items = None if g.is_async else self._items(fi, g.iter, env2)
+            if items is None:
+                return False
+            for x in items:
+                e3 = dict(env2)
+                try:
+                    self._store(fi, g.target, x, e3, None)
+                except _Leaf:
+                    return False
+                keep = True
+                for c_ in g.ifs:
+                    f_ = _fold(render(self.expr(fi, c_, e3)))
+                    if f_ is None:
+                        return False
+                    if not f_:
+                        keep = False
+                        break
+                if keep and not gen(gi + 1, e3):
+                    return False
+            return True
+        if not gen(0, dict(env)):
+            return None
+        if isinstance(e, ast.ListComp):
+            return frozenset([Seq([self.expr(fi, e.elt, r) for r in rows])])
+        d = {}
+        for r in rows:
+            k = _term_const(self.expr(fi, e.key, r))
+            if k is _NO:
+                return None
+            d[k] = self.expr(fi, e.value, r)
+        return frozenset([Rec(d)])
 
     def _call_expr(self, fi, call, env):
         f0 = call.func
@@ -348,7 +497,20 @@ class Prov:
             for p in bound:
                 if p not in args:
                     args[p] = self.expr(fi, bound[p], env)
-            return self.call(callee, args)
+            out = self.call(callee, args)
+            for p in sorted(_mutated_params(callee)):
+                # the caller's record / list is not the one the callee
+                # changed (value semantics): whatever reads it afterwards
+                # gets a term that says so
+                r_ = bound.get(p)
+                while isinstance(r_, ast.Subscript):
+                    r_ = r_.value
+                if isinstance(r_, ast.Name) and any(
+                        isinstance(x, (Rec, Seq))
+                        for x in env.get(r_.id, ())):
+                    env[r_.id] = frozenset(['<%s as left by %s>' % (
+                        r_.id, callee.full)])
+            return out
         # external / unresolved / method call: a term by name
         f = call.func
         if isinstance(f, ast.Attribute):
@@ -369,13 +531,18 @@ class Prov:
 
     def _local_import_callee(self, fi, f, env):
         """Callee reached through a function-level import (bound in env as
-        '@dotted.target')."""
+        '@dotted.target') or through a local that holds one package function
+        (bound as 'module.function')."""
         tgt = None
         if isinstance(f, ast.Name) and f.id in env:
             v = env[f.id]
             if len(v) == 1 and isinstance(next(iter(v)), str) and \
                     next(iter(v)).startswith('@'):
                 tgt = next(iter(v))[1:]
+            elif len(v) == 1 and isinstance(next(iter(v)), str) and \
+                    re.fullmatch(r'[A-Za-z_][\w.]*\.[A-Za-z_]\w*',
+                                 next(iter(v))):
+                tgt = next(iter(v))
         elif isinstance(f, ast.Attribute):
             d = dotted(f)
             if d is not None and d.split('.')[0] in env:
@@ -457,17 +624,43 @@ class Prov:
                 # docstring / call for its effect (log); a method call on a
                 # record local is a mutation the interpreter must follow
                 c_ = st.value
-                if isinstance(c_, ast.Call) and isinstance(
-                        c_.func, ast.Attribute) and isinstance(
-                            c_.func.value, ast.Name) and \
-                        c_.func.value.id in env and any(
-                            isinstance(x, Rec)
-                            for x in env[c_.func.value.id]):
+                recv = root = c_.func.value if isinstance(
+                    c_, ast.Call) and isinstance(c_.func, ast.Attribute) \
+                    else None
+                while isinstance(root, ast.Subscript):
+                    root = root.value
+                cur = None
+                if isinstance(root, ast.Name) and root.id in env:
+                    if root is recv:
+                        cur = env[root.id]
+                    elif any(isinstance(x, Rec) for x in env[root.id]):
+                        cur = self.expr(fi, recv, env)      # d[k].append(v)
+                if cur is not None and any(isinstance(x, Seq) for x in cur):
+                    if len(cur) != 1 or c_.keywords:
+                        raise _Leaf()
+                    _no_alias(env, root.id, recv is not root)
+                    elts = next(iter(cur)).elts
+                    if c_.func.attr == 'append' and len(c_.args) == 1:
+                        elts = elts + (self.expr(fi, c_.args[0], env),)
+                    elif c_.func.attr == 'extend' and len(c_.args) == 1:
+                        more = self._items(fi, c_.args[0], env)
+                        if more is None:
+                            raise _Leaf()
+                        elts = elts + tuple(more)
+                    elif c_.func.attr in ('index', 'count', 'copy'):
+                        continue
+                    else:
+                        raise _Leaf()
+                    self._store(fi, recv, frozenset([Seq(elts)]), env, None)
+                    continue
+                if cur is not None and root is recv and any(
+                        isinstance(x, Rec) for x in cur):
                     nm = c_.func.value.id
-                    cur = env[nm]
                     if len(cur) != 1:
                         raise _Leaf()
                     d = next(iter(cur)).d()
+                    if c_.func.attr in ('pop', 'update'):
+                        _no_alias(env, nm, False)
                     if c_.func.attr == 'pop' and c_.args and const(
                             c_.args[0], _NO) is not _NO:
                         d.pop(const(c_.args[0]), None)
@@ -486,6 +679,25 @@ class Prov:
                 continue
             if isinstance(st, (ast.Pass, ast.Assert)):
                 continue
+            if isinstance(st, _Bind):
+                self._store(fi, st.target, st.value, env, None)
+                # the loop variable names an element of the sequence
+                _shared(env, [n.id for n in ast.walk(st.target)
+                              if isinstance(n, ast.Name)])
+                continue
+            if isinstance(st, ast.For):
+                # a loop over a sequence of known length is the sequence of
+                # its passes (no break / continue)
+                items = self._items(fi, st.iter, env)
+                if items is None or any(
+                        isinstance(n, (ast.Break, ast.Continue))
+                        for b_ in st.body for n in ast.walk(b_)):
+                    raise _Leaf()
+                unrolled = []
+                for x in items:
+                    unrolled.append(_Bind(st.target, x))
+                    unrolled.extend(st.body)
+                return self._seq(fi, unrolled + list(st.orelse) + rest, env)
             if isinstance(st, (ast.Import, ast.ImportFrom)):
                 self._bind_import(fi, st, env)
                 continue
@@ -497,6 +709,8 @@ class Prov:
                 v = self.expr(fi, st.value, env)
                 for t in st.targets:
                     self._store(fi, t, v, env, st.value)
+                if len(st.targets) > 1:         # a = b = {...}: one object
+                    _shared(env, [_root_id(t) for t in st.targets], v)
                 continue
             if isinstance(st, ast.AnnAssign) and st.value is not None:
                 self._store(fi, st.target, self.expr(fi, st.value, env), env,
@@ -505,6 +719,9 @@ class Prov:
             if isinstance(st, ast.AugAssign):
                 if not isinstance(st.target, ast.Name):
                     raise _Leaf()
+                if any(isinstance(x, (Rec, Seq))
+                       for x in env.get(st.target.id, ())):
+                    _no_alias(env, st.target.id, False)     # in place
                 fake = ast.BinOp(left=ast.Name(id=st.target.id,
                                                ctx=ast.Load()),
                                  op=st.op, right=st.value)
@@ -519,6 +736,7 @@ class Prov:
                         cur = env[t.value.id]
                         if k is not _NO and len(cur) == 1 and isinstance(
                                 next(iter(cur)), Rec):
+                            _no_alias(env, t.value.id, False)
                             d = next(iter(cur)).d()
                             d.pop(k, None)
                             env[t.value.id] = frozenset([Rec(d)])
@@ -581,6 +799,7 @@ class Prov:
         return frozenset(['None'])
 
     def _store(self, fi, t, v, env, value_node):
+        _note_alias(env, t, v, value_node)
         if isinstance(t, ast.Name):
             env[t.id] = v
             return
@@ -588,7 +807,12 @@ class Prov:
             if isinstance(value_node, (ast.Tuple, ast.List)) and len(
                     value_node.elts) == len(t.elts):
                 vals = [self.expr(fi, x, env) for x in value_node.elts]
-                for x, vv in zip(t.elts, vals):
+                for x, vv, vn in zip(t.elts, vals, value_node.elts):
+                    self._store(fi, x, vv, env, vn)
+            elif len(v) == 1 and isinstance(next(iter(v)), Seq) and len(
+                    next(iter(v)).elts) == len(t.elts) and not any(
+                        isinstance(x, ast.Starred) for x in t.elts):
+                for x, vv in zip(t.elts, next(iter(v)).elts):
                     self._store(fi, x, vv, env, None)
             else:
                 r = render(v)
@@ -600,16 +824,96 @@ class Prov:
             chain = []
             n = t
             while isinstance(n, ast.Subscript):
-                chain.append(const(n.slice, _NO))
+                k = const(n.slice, _NO)
+                if k is _NO:
+                    k = _term_const(self.expr(fi, n.slice, env))
+                chain.append(k)
                 n = n.value
             chain.reverse()
             if isinstance(n, ast.Name) and n.id in env and \
                     _NO not in chain and len(env[n.id]) == 1 and \
                     isinstance(next(iter(env[n.id])), Rec):
+                _no_alias(env, n.id, len(chain) > 1)
                 env[n.id] = frozenset([_set(next(iter(env[n.id])), chain,
                                             v)])
                 return
         raise _Leaf()               # effect the interpreter does not model
+
+
+_ALIAS, _INNER = '%alias', '%inner'
+
+
+def _note_alias(env, t, v, value_node):
+    """Value semantics are only right while a record / list has one name.
+    `y = x` makes x and y one object, `d[k] = x` makes x a part of d: noted,
+    so that a later in-place change through such a name is refused."""
+    if isinstance(t, ast.Name):
+        for tag in (_ALIAS, _INNER):
+            if t.id in env.get(tag, ()):
+                env[tag] = env[tag] - {t.id}
+    if not isinstance(value_node, ast.Name) or not any(
+            isinstance(x, (Rec, Seq)) for x in v):
+        return
+    root = t
+    while isinstance(root, ast.Subscript):
+        root = root.value
+    if not isinstance(root, ast.Name):
+        return
+    both = {value_node.id} | ({root.id} if root is t else set())
+    env[_ALIAS] = frozenset(env.get(_ALIAS, ())) | both
+    if root is not t:
+        env[_INNER] = frozenset(env.get(_INNER, ())) | {root.id}
+
+
+def _root_id(t):
+    while isinstance(t, (ast.Subscript, ast.Attribute)):
+        t = t.value
+    return t.id if isinstance(t, ast.Name) else None
+
+
+def _shared(env, names, v=None):
+    """The names (those holding a record / list) denote shared objects."""
+    hit = {n for n in names if n is not None and any(
+        isinstance(x, (Rec, Seq)) for x in (v if v is not None
+                                            else env.get(n, ())))}
+    if hit:
+        env[_ALIAS] = frozenset(env.get(_ALIAS, ())) | hit
+
+
+def _no_alias(env, name, inner):
+    if name in env.get(_ALIAS, ()) or (inner and name in env.get(_INNER, ())):
+        raise _Leaf()
+
+
+_MUTATORS = ('append', 'extend', 'insert', 'pop', 'remove', 'clear', 'update',
+             'setdefault', 'popitem', 'sort', 'reverse', 'fill', 'put',
+             'itemset', 'resize')
+
+
+def _mutated_params(fi):
+    """Parameters the function changes in place (store / del through a
+    subscript, a mutator method, an augmented assignment)."""
+    def root(n):
+        while isinstance(n, (ast.Subscript, ast.Attribute)):
+            n = n.value
+        return n.id if isinstance(n, ast.Name) else None
+    out = set()
+    for n in walk_no_nested(fi.node):
+        ts = []
+        if isinstance(n, ast.Assign):
+            for t in n.targets:
+                ts.extend(t.elts if isinstance(t, (ast.Tuple, ast.List))
+                          else [t])
+            ts = [t for t in ts if not isinstance(t, ast.Name)]
+        elif isinstance(n, ast.AugAssign):
+            ts = [n.target]
+        elif isinstance(n, ast.Delete):
+            ts = [t for t in n.targets if not isinstance(t, ast.Name)]
+        elif isinstance(n, ast.Call) and isinstance(n.func, ast.Attribute) \
+                and n.func.attr in _MUTATORS:
+            ts = [n.func.value]
+        out.update(r for r in map(root, ts) if r in fi.params)
+    return out
 
 
 def _set(rec, chain, v):
@@ -625,6 +929,24 @@ def _set(rec, chain, v):
 
 
 _NO = object()
+
+
+def _term_const(vals):
+    """The Python constant a set of alternatives stands for (one alternative,
+    the repr of a str / int / bool / None / float), else _NO."""
+    if len(vals) != 1:
+        return _NO
+    t = next(iter(vals))
+    if not isinstance(t, str) or not (t[:1] in '\'"-' or t[:1].isdigit()
+                                      or t in ('True', 'False', 'None')):
+        return _NO
+    try:
+        c = ast.literal_eval(t)
+    except (ValueError, SyntaxError, MemoryError, RecursionError):
+        return _NO
+    if isinstance(c, (str, int, float, bool)) or c is None:
+        return c
+    return _NO
 
 
 def _none_split(test, env):
